@@ -90,8 +90,10 @@ def run(ctx):
             cq.z(ncol), cq.z(K1), cq.z(K2), cq.zl(Ap), cq.zl(Ai), cq.fll(B.ravel()), cq.fl(tol), cq.fll(Qx), cq.fll(R)))
         meta.append((case, [Qx.tolist(), R.tolist()]))
         # ---- oracle on the public routine (real and a complex rotation of the same data)
-        for cplx in (False, True):
-            Bc = B if not cplx else B * np.exp(1j * 0.7)
+        Bim = np.array([[rng.choice([-1, 0, 0.5, 1, 2]) for _ in range(K2)] for _ in range(n * K1)], dtype=float)
+        for cplx in (False, True, 'general'):
+            # (True: one common phase; 'general': columns and rows of differing phase -- the inner products conjugate the LEFT factor)
+            Bc = B if not cplx else (B * np.exp(1j * 0.7) if cplx is True else B + 1j * Bim)
             try:
                 Q, Rc = fit_candidates(sp.csr_array(AggOp), Bc, tol=tol)
             except Exception as e:   # noqa
@@ -137,6 +139,9 @@ def smoothers(ctx):
     dsc = np.array([1.0 + 0.5 * rng.random() for _ in range(A.shape[0])])
     Asc = sp.bsr_array(sp.csr_array(sp.diags_array(dsc) @ sp.csr_array(A) @ sp.diags_array(dsc)), blocksize=(2, 2))
     probs.append(('elasticity-4x4-rescaled', Asc, B / dsc[:, None]))
+    # a single candidate of small magnitude (the property does not depend on the scaling of B)
+    probs.append(('poisson-6x6/B*1e-6', sp.csr_array(poisson((6, 6), format='csr')), 1e-6 * np.ones((36, 1))))
+    probs.append(('poisson-6x6/B*2^40', sp.csr_array(poisson((6, 6), format='csr')), 2.0 ** 40 * np.ones((36, 1))))
     variants = [('jacobi', {}), ('jacobi', {'degree': 2, 'omega': 1.0}), ('jacobi', {'filter_entries': True}),
                 ('jacobi', {'filter_entries': True, 'degree': 2}), ('jacobi', {'filter_entries': True, 'degree': 3, 'weighting': 'local'}),
                 ('jacobi', {'weighting': 'local'}), ('richardson', {}), ('richardson', {'degree': 2}), ('richardson', {'degree': 3, 'omega': 1.0}),
@@ -144,7 +149,11 @@ def smoothers(ctx):
                 ('jacobi', {'weighting': 'local', 'degree': 2}),
                 ('energy', {'krylov': 'cg', 'maxiter': 2}), ('energy', {'krylov': 'cgnr', 'maxiter': 2}),
                 ('energy', {'krylov': 'gmres', 'maxiter': 3, 'degree': 2}), ('energy', {'krylov': 'cg', 'weighting': 'diagonal'}),
-                ('energy', {'krylov': 'cg', 'maxiter': 2, 'degree': 0}), ('energy', {'krylov': 'gmres', 'maxiter': 2, 'degree': 0}), None]
+                ('energy', {'krylov': 'cg', 'maxiter': 2, 'degree': 0}), ('energy', {'krylov': 'gmres', 'maxiter': 2, 'degree': 0}),
+                # entries of the smoothed P dropped afterwards (then the constraints are enforced once more on what is left)
+                ('energy', {'krylov': 'cg', 'maxiter': 3, 'degree': 2, 'postfilter': {'theta': 0.1}}),
+                ('energy', {'krylov': 'cg', 'maxiter': 3, 'degree': 2, 'postfilter': {'k': 3}}),
+                ('energy', {'krylov': 'gmres', 'maxiter': 3, 'degree': 2, 'postfilter': {'theta': 0.05, 'k': 4}}), None]
     for pname, A, B in probs:
         for sm in variants:
             for ctor, aggr in (('sa', 'standard'), ('rootnode', 'standard'), ('rootnode', 'naive'),
@@ -171,7 +180,7 @@ def smoothers(ctx):
                     P, T = L.P.toarray(), L.T.toarray()
                     Bf, Bc = L.B, Lc.B
                     cs = dict(case, level=l)
-                    scale = 1 + np.abs(Bf).max()
+                    scale = np.abs(Bf).max() or 1.0          # (relative to the candidates: they may be of any magnitude)
                     if _nn(np.abs(T @ Bc - Bf).max()) > 1e-8 * scale and ctor == 'sa':
                         ctx.fail('tentative/does-not-reproduce-B', '|T B_c - B| = %.3g' % np.abs(T @ Bc - Bf).max(), cs)
                     constrained = sm is not None and (sm[0] == 'energy' or sm[1].get('filter_entries'))
@@ -200,6 +209,9 @@ def smoothers(ctx):
                         Apat = np.abs(L.A.toarray()).reshape(nf_, bf_, nf_, bf_).sum(axis=(1, 3)) != 0
                         npat = (np.linalg.matrix_power(Apat.astype(float) + np.eye(nf_), deg_) @ np.abs(L.AggOp.toarray())) != 0
                         rpat = np.kron(npat, np.ones((bf_, bc_))) != 0
+                        if sm[1].get('postfilter') or sm[1].get('prefilter'):
+                            # after dropping, the pattern that is left is the pattern of P itself
+                            rpat = P != 0
                         PB = P @ Bc
                         K_ = Bc.shape[1]
                         worst = 0.0
